@@ -12,7 +12,7 @@ import (
 )
 
 var gatedKinds = []string{"append", "store", "expunge", "uidexpunge", "copy", "move", "fetch", "select", "close", "noop", "check", "search",
-	"deliver", "deliverall", "idle", "done", "advance", "conn.new", "conn.flags", "conn.boxes", "conn.del", "probe", "converge"}
+	"deliver", "deliverall", "idle", "done", "advance", "conn.new", "conn.flags", "conn.boxes", "conn.del", "probe", "converge", "conn.flap"}
 
 func genGated(r *core.Rand, prop string, weights []int, minA, maxA int) *core.Scenario {
 	sc := &core.Scenario{Property: prop, Cfg: map[string]int{}}
@@ -80,8 +80,8 @@ type C01 struct{}
 func (C01) ID() string { return "C01" }
 
 func (C01) Generate(r *core.Rand, tier string, idx int) *core.Scenario {
-	//                 app sto exp uex cop mov fet sel clo noo chk sea del dla idl don adv cnw cfl cbx cdl prb cvg
-	weights := []int{10, 10, 5, 2, 5, 5, 4, 2, 1, 4, 1, 2, 12, 2, 3, 3, 2, 3, 3, 3, 2, 8, 0}
+	//                 app sto exp uex cop mov fet sel clo noo chk sea del dla idl don adv cnw cfl cbx cdl prb cvg flp
+	weights := []int{10, 10, 5, 2, 5, 5, 4, 2, 1, 4, 1, 2, 12, 2, 3, 3, 2, 3, 3, 3, 2, 8, 0, 3}
 	return genGated(r, "C01", weights, 25, 70)
 }
 
@@ -165,6 +165,7 @@ func (C01) Execute(sc *core.Scenario, keepLog bool) *core.Result {
 		if e.Failed() {
 			return
 		}
+		defer g.Diagnose()
 		cross := 0
 		for i, a := range sc.Actions {
 			e.Step = i + 1
@@ -210,8 +211,8 @@ type C02 struct{}
 func (C02) ID() string { return "C02" }
 
 func (C02) Generate(r *core.Rand, tier string, idx int) *core.Scenario {
-	//                 app sto exp uex cop mov fet sel clo noo chk sea del dla idl don adv cnw cfl cbx cdl prb cvg
-	weights := []int{10, 10, 6, 2, 6, 6, 3, 1, 1, 4, 1, 1, 12, 2, 2, 2, 1, 4, 4, 4, 3, 0, 4}
+	//                 app sto exp uex cop mov fet sel clo noo chk sea del dla idl don adv cnw cfl cbx cdl prb cvg flp
+	weights := []int{10, 10, 6, 2, 6, 6, 3, 1, 1, 4, 1, 1, 12, 2, 2, 2, 1, 4, 4, 4, 3, 0, 4, 4}
 	return genGated(r, "C02", weights, 20, 60)
 }
 
@@ -309,6 +310,7 @@ func (C02) Execute(sc *core.Scenario, keepLog bool) *core.Result {
 		if e.Failed() {
 			return
 		}
+		defer g.Diagnose()
 		cross := 0
 		for i, a := range sc.Actions {
 			e.Step = i + 1
